@@ -239,6 +239,12 @@ func repoOracles(r *Run, focus string, idx int, cfg repoCfg, steps []repoStep, w
 	failedVerify := map[int]int{}  // loc -> number of the served document whose refresh just failed signature verification
 	vouched := map[int]int{}       // loc -> that number, once a connection for the location presented the document's signer
 	createdWith := map[int][]int{} // loc -> candidates presented by the handshake that made the location known
+	// the signer certificate a location's store holds is not always the signer of the list it holds: after a refresh that
+	// failed verification, a connection presenting the rejected list's signer replaces the stored certificate (key roll-over),
+	// whatever the location serves by then. failedSigner: signer of the list rejected by the last refresh; storedSigner: the
+	// replacement, until the next list is installed.
+	failedSigner := map[int]int{}
+	storedSigner := map[int]int{}
 	viol := func(prop, sig, detail string) {
 		if prop == focus {
 			r.Violate(prop+" "+sig, fmt.Sprintf("cfg=%+v history#%d: %s | trace: %s", cfg, idx, detail, strings.Join(trace, " ; ")),
@@ -259,6 +265,7 @@ func repoOracles(r *Run, focus string, idx int, cfg repoCfg, steps []repoStep, w
 			// what a running process remembers about its last refresh (the failed-verification flag and the rejected list) is gone
 			failedVerify = map[int]int{}
 			vouched = map[int]int{}
+			failedSigner = map[int]int{}
 		}
 		cur, ok := parseRepoSnapshot(st.Obs)
 		if !ok {
@@ -269,6 +276,10 @@ func repoOracles(r *Run, focus string, idx int, cfg repoCfg, steps []repoStep, w
 			note(o.CDP, o.Cands)
 			if sv, has := served[o.CDP]; has && sv.Served == "doc" && failedVerify[o.CDP] == sv.Doc.Number && containsInt(o.Cands, sv.Doc.Signer) {
 				vouched[o.CDP] = sv.Doc.Number
+			}
+			if fs, has := failedSigner[o.CDP]; has && containsInt(o.Cands, fs) {
+				storedSigner[o.CDP] = fs
+				delete(failedSigner, o.CDP)
 			}
 		case "provision":
 			note(o.Loc, o.Cands)
@@ -347,7 +358,14 @@ func repoOracles(r *Run, focus string, idx int, cfg repoCfg, steps []repoStep, w
 					viol("C16", "parseable-crl-not-refreshed sig="+cfg.Sig, fmt.Sprintf("loc %d: under %s the refresh did not install served CRL #%d (now %d)", loc, cfg.Sig, sv.Doc.Number, e.num))
 					viol("C08", "successful-refresh-not-installed", fmt.Sprintf("loc %d: CRL #%d not installed", loc, sv.Doc.Number))
 				}
-				if sv.Served == "doc" && cfg.Sig == "verify" && sv.Doc.Signer == signerOf(w, loc, p.num) && !(e.loaded && e.num == sv.Doc.Number) {
+				wantSigner := signerOf(w, loc, p.num)
+				if ss, has := storedSigner[loc]; has {
+					wantSigner = ss
+				}
+				if e.loaded && e.num != p.num {
+					delete(storedSigner, loc) // a new list came in: the store holds its signer
+				}
+				if sv.Served == "doc" && cfg.Sig == "verify" && sv.Doc.Signer == wantSigner && !(e.loaded && e.num == sv.Doc.Number) {
 					viol("C08", "successful-refresh-not-installed", fmt.Sprintf("loc %d: CRL #%d by the same signer not installed (now %d)", loc, sv.Doc.Number, e.num))
 				}
 				// a refresh that failed verification, then a connection presenting the right signer (which replaces the stored signer
@@ -357,8 +375,10 @@ func repoOracles(r *Run, focus string, idx int, cfg repoCfg, steps []repoStep, w
 				}
 				if sv.Served == "doc" && cfg.Sig == "verify" && e.loaded && e.num == p.num && p.num != sv.Doc.Number && sv.Doc.Signer != 9 {
 					failedVerify[loc] = sv.Doc.Number
+					failedSigner[loc] = sv.Doc.Signer
 				} else {
 					delete(failedVerify, loc)
+					delete(failedSigner, loc)
 				}
 				delete(vouched, loc)
 			}
